@@ -33,6 +33,13 @@ type OpDefaults struct {
 	// RtExpired: with OpCtx set, the transport-wide context is not cancelled but carries a deadline that is long past;
 	// the request timeout stays the default one
 	RtExpired bool `json:"runtime_context_deadline_expired,omitempty"`
+	// Redirect: the server answers the call with 302 + Location. What the reader sees is decided by the redirect policy of the
+	// client that governs the call: the operation's own client when it has one, else the transport-wide one.
+	Redirect   bool `json:"redirect,omitempty"`
+	OpStops    bool `json:"op_client_stops_at_redirect,omitempty"`      // the operation client's CheckRedirect returns http.ErrUseLastResponse (else nil: follow)
+	WithClient bool `json:"runtime_made_with_client,omitempty"`         // the Runtime is made with client.NewWithClient (its client carries a redirect policy that counts how often it is consulted)
+	RtStops    bool `json:"runtime_client_stops_at_redirect,omitempty"` // with WithClient: that policy returns http.ErrUseLastResponse (else it follows)
+	NoOpClient bool `json:"no_op_client,omitempty"`                     // mirror case: the operation carries no client of its own
 }
 
 type countingRT struct {
@@ -52,16 +59,36 @@ func runOpDefaults(m *mon.M, c *OpDefaults) {
 		cookiesSeen = append(cookiesSeen, r.Header.Get("Cookie"))
 		http.SetCookie(w, &http.Cookie{Name: "session", Value: "from-server", Path: "/"})
 		w.Header().Set("Content-Type", "application/json")
+		if c.Redirect && r.URL.Path == "/p" {
+			w.Header().Set("Location", "/landed")
+			w.WriteHeader(http.StatusFound)
+			_, _ = io.WriteString(w, `{"moved":true}`)
+			return
+		}
 		_, _ = io.WriteString(w, `{}`)
 	}))
 	defer srv.Close()
 	u, _ := url.Parse(srv.URL)
-	r := client.New(u.Host, "/", []string{"http"})
 	rtWide := &countingRT{next: http.DefaultTransport}
-	r.Transport = rtWide
 	jar, _ := cookiejar.New(nil)
+	var rtPolicyCalls int64
+	var r *client.Runtime
+	if c.WithClient {
+		r = client.NewWithClient(u.Host, "/", []string{"http"}, &http.Client{Transport: rtWide, Jar: jar, CheckRedirect: func(*http.Request, []*http.Request) error {
+			atomic.AddInt64(&rtPolicyCalls, 1)
+			if c.RtStops {
+				return http.ErrUseLastResponse
+			}
+			return nil
+		}})
+	} else {
+		r = client.New(u.Host, "/", []string{"http"})
+	}
+	r.Transport = rtWide
 	r.Jar = jar
+	var codes []int
 	reader := rt.ClientResponseReaderFunc(func(resp rt.ClientResponse, _ rt.Consumer) (interface{}, error) {
+		codes = append(codes, resp.Code())
 		_, _ = io.Copy(io.Discard, resp.Body())
 		return nil, nil
 	})
@@ -79,13 +106,24 @@ func runOpDefaults(m *mon.M, c *OpDefaults) {
 	seenBefore := len(cookiesSeen)
 	op := mk()
 	opRT := &countingRT{next: http.DefaultTransport}
-	op.Client = &http.Client{}
-	if c.OpTransport {
-		op.Client.Transport = opRT
+	var opPolicyCalls int64
+	if !c.NoOpClient {
+		op.Client = &http.Client{}
+		if c.OpTransport {
+			op.Client.Transport = opRT
+		}
+		if c.OpJar {
+			op.Client.Jar, _ = cookiejar.New(nil)
+		}
+		if c.OpStops {
+			op.Client.CheckRedirect = func(*http.Request, []*http.Request) error {
+				atomic.AddInt64(&opPolicyCalls, 1)
+				return http.ErrUseLastResponse
+			}
+		}
 	}
-	if c.OpJar {
-		op.Client.Jar, _ = cookiejar.New(nil)
-	}
+	codes = nil
+	atomic.StoreInt64(&rtPolicyCalls, 0) // a warm-up call was a transport-wide one: its consultations do not count
 	switch c.OpCtx {
 	case "background":
 		op.Context = context.Background()
@@ -106,6 +144,9 @@ func runOpDefaults(m *mon.M, c *OpDefaults) {
 	if c.RtExpired {
 		fp += "|runtime-deadline-expired"
 	}
+	if c.Redirect || c.WithClient || c.NoOpClient {
+		fp += fmt.Sprintf("|redirect=%v,op-stops=%v,with-client=%v,rt-stops=%v,no-op-client=%v", c.Redirect, c.OpStops, c.WithClient, c.RtStops, c.NoOpClient)
+	}
 	m.NT(fp)
 	if pv != nil {
 		m.Violate("op-client-defaults/panic", fmt.Sprintf("%v\n%s", pv, st), c)
@@ -123,11 +164,46 @@ func runOpDefaults(m *mon.M, c *OpDefaults) {
 		m.Violate("op-client-defaults/call-failed", fmt.Sprintf("Submit with a per-operation client failed: %v", err), c)
 		return
 	}
+	// the redirect policy that governs the call is the one of the client that carries it
+	stops := c.OpStops
+	feature := "op-client-stops"
+	if c.NoOpClient {
+		stops = c.WithClient && c.RtStops
+		feature = "runtime-made-with-client-stops"
+	}
+	wantCode, wantTrips := http.StatusOK, int64(1)
+	switch {
+	case c.Redirect && stops:
+		wantCode = http.StatusFound
+	case c.Redirect:
+		wantTrips = 2 // /p, then /landed
+		feature = strings.Replace(feature, "stops", "follows", 1)
+	}
+	if c.Redirect {
+		if len(codes) != 1 || codes[0] != wantCode {
+			m.Violate("op-client-defaults/redirect-policy-of-governing-client-ignored/"+feature, fmt.Sprintf("the server answered 302 + Location; the client that governs the call (operation client: %v, stops at a redirect: %v; Runtime made with NewWithClient: %v, its policy stops: %v) makes the reader see %d, it saw %v (operation policy consulted %d times, Runtime client's policy %d times)", !c.NoOpClient, c.OpStops, c.WithClient, c.RtStops, wantCode, codes, opPolicyCalls, rtPolicyCalls), c)
+			return
+		}
+		if !c.NoOpClient && atomic.LoadInt64(&rtPolicyCalls) != 0 {
+			m.Violate("op-client-defaults/transport-wide-redirect-policy-consulted", fmt.Sprintf("the operation carries its own http.Client, yet the redirect policy of the client the Runtime was made with was consulted %d time(s)", rtPolicyCalls), c)
+			return
+		}
+	}
+	if c.NoOpClient {
+		// mirror case: the transport-wide client carries the call
+		if n := atomic.LoadInt64(&rtWide.calls) - before; n != wantTrips {
+			m.Violate("op-client-defaults/transport-wide-client-not-used", fmt.Sprintf("the operation has no client of its own (Runtime made with NewWithClient: %v): the transport-wide RoundTripper carried %d request(s), expected %d", c.WithClient, n, wantTrips), c)
+			return
+		}
+		m.Class("op-client-defaults-ok")
+		m.Class("op-client-defaults-ok/no-op-client")
+		return
+	}
 	if n := atomic.LoadInt64(&rtWide.calls) - before; n != 0 {
 		m.Violate("op-client-defaults/transport-wide-transport-used", fmt.Sprintf("the operation carries its own http.Client (Transport set: %v) but the transport-wide RoundTripper carried %d request(s)", c.OpTransport, n), c)
 		return
 	}
-	if c.OpTransport && atomic.LoadInt64(&opRT.calls) != 1 {
+	if c.OpTransport && atomic.LoadInt64(&opRT.calls) != wantTrips {
 		m.Violate("op-client-defaults/op-transport-not-used", fmt.Sprintf("the operation client's own transport carried %d requests", opRT.calls), c)
 		return
 	}
@@ -138,4 +214,7 @@ func runOpDefaults(m *mon.M, c *OpDefaults) {
 		}
 	}
 	m.Class("op-client-defaults-ok")
+	if c.Redirect {
+		m.Class("op-client-defaults-ok/redirect")
+	}
 }
